@@ -1,5 +1,5 @@
 (** * C04 - Interrupted operations resume to the same result; seed fixed by the first call. *)
-From LP Require Import Proofs.Tactics Proofs.Loop Proofs.Resume Proofs.Resume2 Proofs.Resume3 Proofs.Resume4 Proofs.Confirm Proofs.Interleave Proofs.InterleaveGt Proofs.LifecycleNoisy Proofs.Examples.
+From LP Require Import Proofs.Tactics Proofs.Loop Proofs.Resume Proofs.Resume2 Proofs.Resume3 Proofs.Resume4 Proofs.Confirm Proofs.Interleave Proofs.InterleaveGt Proofs.InterleaveNft Proofs.LifecycleNoisy Proofs.Examples.
 Open Scope N_scope.
 
 (** The loop law: a run interrupted with budget [b1] and resumed with [b2] equals one run with
@@ -82,6 +82,21 @@ Theorem C04_distribute_noise : forall (H : list N -> list N) v2 wa wp su0 cs0 p0
 Proof. exact distribute_noisy_complete. Qed.
 
 (** a resumed selectWinners neither reads nor consumes the fresh randomness of its own call *)
+(** the third stage of the two NFT contracts (these endpoints are not gated by the pause flag) *)
+Theorem C04_select_nft_noise : forall (H : list N -> list N) wa wp su0 cs0 p0 wk e b wf x,
+  noisyT (select_nft_winners_endpoint H) wa wk -> wa = Tw su0 cs0 p0 wp -> open_flags wp ->
+  select_nft_winners_endpoint H e b wk = Ok (wf, x) ->
+  exists l wq su cs p wpure, after_interrupted (select_nft_winners_endpoint H) l wp = Some wq /\
+                             select_nft_winners_endpoint H e b wq = Ok (wpure, x) /\ wf = Tw su cs p wpure.
+Proof. exact select_nft_noisy_complete. Qed.
+
+Theorem C04_secondary_noise : forall (H : list N -> list N) wa wp su0 cs0 p0 wk e b wf x,
+  noisyT (secondary_selection_step H) wa wk -> wa = Tw su0 cs0 p0 wp -> open_flags wp ->
+  secondary_selection_step H e b wk = Ok (wf, x) ->
+  exists l wq su cs p wpure, after_interrupted (secondary_selection_step H) l wp = Some wq /\
+                             secondary_selection_step H e b wq = Ok (wpure, x) /\ wf = Tw su cs p wpure.
+Proof. exact secondary_noisy_complete. Qed.
+
 Theorem C04_select_seed_fixed : forall (H : list N -> list N) e b w r p sd,
   op (st w) = OpSelect r p ->
   select_winners H e b (w <| seeds := sd |>) =
@@ -119,6 +134,8 @@ Print Assumptions C04_noise_calls.
 Print Assumptions C04_filter_noise.
 Print Assumptions C04_select_noise.
 Print Assumptions C04_distribute_noise.
+Print Assumptions C04_select_nft_noise.
+Print Assumptions C04_secondary_noise.
 Print Assumptions C04_select_seed_fixed.
 Print Assumptions C04_completes.
 Print Assumptions C04_nonvacuous.
